@@ -751,7 +751,10 @@ func (c *Ctx) oblige(s *State, kind, name string, goal Term, pos, note string, p
 		return
 	}
 	dep := s.opqDep
-	if i := strings.Index(goal.S, "opq|"); i >= 0 {
+	// a goal that mentions the result of an un-contracted call cannot be decided from what the engine knows
+	// about that result -- except rules that are *about* such results and operands (trace rules speak of
+	// $res / $arg explicitly) and confinement claims (an unknown result is not known to be private)
+	if i := opqIndex(goal.S); i >= 0 && kind != "trace" && !strings.Contains(note, "private(") {
 		dep = opqName(goal.S[i:])
 	}
 	c.obls = append(c.obls, &Obligation{Name: name, Fn: c.key, Kind: kind, Assume: append([]Term(nil), s.pc...), Goal: goal, Pos: pos, Note: note, Props: props, decls: c.d, Witness: c.witness, OpqDep: dep})
